@@ -484,6 +484,13 @@ func (c *Ctx) SDiv(a, b *Term) *Term {
 	if isOne(b) {
 		return a
 	}
+	// x / 2^k (truncating) = (x + ((x >>s w-1) & (2^k-1))) >>s k
+	if k, ok := pow2(b); ok && a.Op != OpConst && k > 0 && k < a.Sort.W-1 {
+		w := a.Sort.W
+		sign := c.AShr(a, c.BVC(w, uint64(w-1)))
+		bias := c.bin(OpBAnd, sign, c.BVC(w, (uint64(1)<<uint(k))-1))
+		return c.AShr(c.Add(a, bias), c.BVC(w, uint64(k)))
+	}
 	return c.bin(OpSDiv, a, b)
 }
 func (c *Ctx) URem(a, b *Term) *Term {
@@ -807,6 +814,14 @@ func (c *Ctx) FMul(a, b *Term) *Term {
 		if r := c.scalePow2(a, k); r != nil {
 			return r
 		}
+	}
+	// finite * 0 = signed zero
+	if b.Op == OpConst && b.Sort == F64 && fval(b.Sort, b.C) == 0 && intDerived(a) {
+		neg := c.FLt(a, c.F64C(0))
+		if math.Signbit(fval(b.Sort, b.C)) {
+			neg = c.FLt(c.F64C(0), a)
+		}
+		return c.Ite(neg, c.F64C(math.Copysign(0, -1)), c.F64C(0))
 	}
 	if a.Op == OpFNeg {
 		return c.FNeg(c.FMul(a.Args[0], b))
